@@ -162,6 +162,7 @@ def run_unreadable(ctx, unit):
     st = ctx.stats
     binary = ctx.params["binary"]
     args = ["--on-error", unit["policy"]] + unit["config"]
+    os.makedirs(os.path.join(core.TARGET, "scratch"), exist_ok=True)
     d = tempfile.mkdtemp(prefix="c20-", dir=os.path.join(core.TARGET, "scratch"))
     try:
         good = os.path.join(d, "a.json")
